@@ -26,8 +26,8 @@ func HarnessC14Lengths() {
 // HarnessC14LengthsBytes: the same on strings of up to 4 arbitrary bytes (well-formed UTF-8 or not):
 // every byte that does not start a well-formed sequence is one code point, as Go counts them.
 func HarnessC14LengthsBytes() {
-	s := verifBytesStr(4)
-	n := int64(verifChoose(6))
+	s := verifBytesStr(4 + 2*verifTier())
+	n := int64(verifChoose(6 + 2*verifTier()))
 	gotMin := MinLength("p", "body", s, n) != nil
 	gotMax := MaxLength("p", "body", s, n) != nil
 	r := verifRuneCount(s)
